@@ -214,7 +214,14 @@ def mon_order(h, obs):
             if hh is not None and hh == e2 + 1:
                 e2 += 1
                 idx_of[hh] = i
-        if snap >= idx_of.get(ledger + 1, 10 ** 9):
+        # ... evaluated at every restart: the ledger height the node restarted with vs the snapshot index it restarted from
+        ahead = snap >= idx_of.get(ledger + 1, 10 ** 9)
+        for op, o in zip(h.ops, obs):
+            if op.split()[0] == "restart":
+                m = _re.search(r"snap=(\d+).*ledger=(\d+)", o)
+                if m and int(m.group(1)) >= idx_of.get(int(m.group(2)) + 1, 10 ** 9):
+                    ahead = True
+        if ahead:
             fp = "C20/unexecuted-entry-skipped/snapshot-ahead-of-execution"
         hits.append(Hit(fp, f"the committed log holds blocks up to height {exp} but after draining and a restart the ledger is at {ledger}"))
     return hits
